@@ -228,8 +228,19 @@ def run(ctx):
            cmod, td)
     # both collections happen before any move
     loops = [s for s in td.body if isinstance(s, ast.For)]
-    collect = [l for l in loops if any(last_attr(c) == 'append' and norm(c.func.value).startswith('from')
-                                       for c in calls_in(l))]
+    tparams = {a.arg for a in td.args.args}
+    # a collection: a local list made of the elements of one parameter list that
+    # carry the other label - by a loop that appends, or by a filtering comprehension
+    collect = [l for l in loops if isinstance(l.iter, ast.Name) and l.iter.id in tparams
+               and any(last_attr(c) == 'append' and isinstance(c.func.value, ast.Name)
+                       and c.func.value.id not in tparams for c in calls_in(l))
+               and not any(last_attr(c) == 'remove' for c in calls_in(l))]
+    collect += [s_ for s_ in td.body if isinstance(s_, ast.Assign) and isinstance(s_.targets[0], ast.Name)
+                and isinstance(s_.value, ast.ListComp) and len(s_.value.generators) == 1
+                and isinstance(s_.value.generators[0].iter, ast.Name)
+                and s_.value.generators[0].iter.id in tparams
+                and norm(s_.value.elt) == norm(s_.value.generators[0].target)
+                and s_.value.generators[0].ifs]
     moves = [l for l in loops if any(last_attr(c) == 'remove' for c in calls_in(l))]
     ok = len(collect) == 2 and len(moves) == 2 and \
         max(td.body.index(l) for l in collect) < min(td.body.index(l) for l in moves)
